@@ -113,6 +113,95 @@ def _lean_fields(name: str, fields, params: str) -> str:
     return f"def {name} {params} : List (Nat × Int) :=\n  [{body}]\n\n"
 
 
+def _get_any_tuples(node):
+    """The literal name tuples of every `x.get_any((...), ...)` call below `node`, in source order."""
+    calls = [n for n in ast.walk(node) if isinstance(n, ast.Call) and isinstance(n.func, ast.Attribute) and
+             n.func.attr == "get_any" and n.args]
+    calls.sort(key=lambda n: (n.lineno, n.col_offset))
+    out = []
+    for c in calls:
+        t = c.args[0]
+        if not (isinstance(t, ast.Tuple) and all(isinstance(e, ast.Constant) and isinstance(e.value, str) for e in t.elts)):
+            raise P.Untranslatable("get_any is not called with a tuple of string literals")
+        out.append([e.value for e in t.elts])
+    return out
+
+
+def _names(xs):
+    return "[" + ", ".join(P.lean_bytes(x.encode("latin-1")) for x in xs) + "]"
+
+
+def _abbrev_tables(interp) -> str:
+    """Round 6: the key spellings the image plumbing accepts (ISO 32000-1 table 93) and the filter / colour space
+    name pairs (table 94), re-read from LTImage.__init__, PDFStream.get_filters, PDFContentParser.do_keyword,
+    pdftypes.LITERALS_*_DECODE and pdfcolor.LITERAL_INLINE_*."""
+    lay = P.parse_file("pdfminer/layout.py")
+    init = _method(lay, "LTImage", "__init__")
+    per_attr = {}
+    for st in init.body:
+        if isinstance(st, ast.Assign) and len(st.targets) == 1 and isinstance(st.targets[0], ast.Attribute):
+            ts = _get_any_tuples(st)
+            if ts:
+                per_attr.setdefault(st.targets[0].attr, ts)
+    want = {"srcsize": 2, "imagemask": 1, "bits": 1, "colorspace": 1}
+    for a, k in want.items():
+        if len(per_attr.get(a, [])) != k:
+            raise P.Untranslatable(f"LTImage.__init__: self.{a} is not read through {k} get_any call(s)")
+    typ = P.parse_file("pdfminer/pdftypes.py")
+    gf = _get_any_tuples(_method(typ, "PDFStream", "get_filters"))
+    if len(gf) != 2:
+        raise P.Untranslatable("PDFStream.get_filters: expected two get_any calls (filters, parameters)")
+    dk = _method(interp, "PDFContentParser", "do_keyword")
+    eos_keys = None
+    for n in ast.walk(dk):
+        if isinstance(n, ast.Assign) and len(n.targets) == 1 and isinstance(n.targets[0], ast.Name) and \
+                n.targets[0].id == "filter" and eos_keys is None:
+            ks = []
+            for c in ast.walk(n.value):
+                if isinstance(c, ast.Constant) and isinstance(c.value, str) and c.value not in ks:
+                    ks.append(c.value)
+            src = ast.unparse(n.value)
+            # the two shapes in use: d.get("F", None)  |  d["F"] if "F" in d else d.get("Filter")
+            if not (src.startswith("d.get(") and len(ks) == 1 or
+                    len(ks) == 2 and src == f"d[{ks[0]!r}] if {ks[0]!r} in d else d.get({ks[1]!r})"):
+                raise P.Untranslatable("do_keyword: the look-up of the filter entry left the translated subset: " + src)
+            eos_keys = ks
+    if eos_keys is None:
+        raise P.Untranslatable("do_keyword: no assignment `filter = ...`")
+    pairs = []
+    for st in typ.body:
+        if isinstance(st, ast.Assign) and isinstance(st.targets[0], ast.Name) and \
+                st.targets[0].id.startswith("LITERALS_") and st.targets[0].id.endswith("_DECODE"):
+            vals = [c.args[0].value for c in st.value.elts if isinstance(c, ast.Call) and ast.unparse(c.func) == "LIT"]
+            pairs.append(vals)
+    col = P.parse_file("pdfminer/pdfcolor.py")
+    cs = {}
+    for st in col.body:
+        if isinstance(st, ast.Assign) and isinstance(st.targets[0], ast.Name) and st.targets[0].id.startswith("LITERAL_") and \
+                isinstance(st.value, ast.Call) and ast.unparse(st.value.func) == "LIT":
+            cs[st.targets[0].id] = st.value.args[0].value
+    out = ["\n/-- Key spellings read by `LTImage.__init__` (Width, Height, ImageMask, BitsPerComponent, ColorSpace), by\n"
+           "    `PDFStream.get_filters` (Filter, DecodeParms) and by `do_keyword` for the end marker (Filter): first match wins. -/\n"]
+    out.append(f"def keysWidth : List (List UInt8) := {_names(per_attr['srcsize'][0])}\n")
+    out.append(f"def keysHeight : List (List UInt8) := {_names(per_attr['srcsize'][1])}\n")
+    out.append(f"def keysImageMask : List (List UInt8) := {_names(per_attr['imagemask'][0])}\n")
+    out.append(f"def keysBits : List (List UInt8) := {_names(per_attr['bits'][0])}\n")
+    out.append(f"def keysColorSpace : List (List UInt8) := {_names(per_attr['colorspace'][0])}\n")
+    out.append(f"def keysFilter : List (List UInt8) := {_names(gf[0])}\n")
+    out.append(f"def keysDecodeParms : List (List UInt8) := {_names(gf[1])}\n")
+    out.append(f"def keysEosFilter : List (List UInt8) := {_names(eos_keys)}\n\n")
+    out.append("/-- `pdftypes.LITERALS_*_DECODE`: the names each filter is recognised under. -/\n")
+    out.append("def filterNames : List (List (List UInt8)) := [" + ", ".join(_names(v) for v in pairs) + "]\n\n")
+    out.append("/-- `pdfcolor.LITERAL_DEVICE_* / LITERAL_INLINE_DEVICE_*`. -/\n")
+    for lean, key in (("litDeviceGray", "LITERAL_DEVICE_GRAY"), ("litDeviceRGB", "LITERAL_DEVICE_RGB"),
+                      ("litDeviceCMYK", "LITERAL_DEVICE_CMYK"), ("litInlineGray", "LITERAL_INLINE_DEVICE_GRAY"),
+                      ("litInlineRGB", "LITERAL_INLINE_DEVICE_RGB"), ("litInlineCMYK", "LITERAL_INLINE_DEVICE_CMYK")):
+        if key not in cs:
+            raise P.Untranslatable("pdfcolor." + key + " is not a LIT(...) literal")
+        out.append(f"def {lean} : List UInt8 := {P.lean_bytes(cs[key].encode('latin-1'))}\n")
+    return "".join(out)
+
+
 def generate(lean_dir: str):
     mod = P.parse_file("pdfminer/image.py")
     out = [P.HEADER.format(src="pdfminer/image.py and pdfminer/pdfinterp.py", ns="ImageGen")]
@@ -189,6 +278,7 @@ def generate(lean_dir: str):
     out.append("\n/-- `INLINE_IMAGE_COMPONENTS`: colour space name -> number of components. -/\n")
     out.append("def inlineComponents : List (List UInt8 × Nat) := [" +
                ", ".join(f"({P.lean_bytes(k.encode('latin-1'))}, {v})" for k, v in comps.items()) + "]\n")
+    out.append(_abbrev_tables(interp))
     out.append("\nend PdfVerif.Gen.ImageGen\n")
     path = os.path.join(lean_dir, "PdfVerif", "Gen", "ImageGen.lean")
     P.write_if_changed(path, "".join(out))
